@@ -6,7 +6,7 @@
 //! counterparty points and secrets, closed flag; chain tip/headers/monitors; allowlist; approved
 //! invoices; channel-id high-water mark).  Explicit `restart` ops additionally continue the history
 //! on the restored node.
-use super::c10::{node_digest, node_model_line};
+use super::c10::{node_digest, node_digest_for, node_model_line};
 use super::sim::*;
 use crate::common::*;
 
@@ -53,6 +53,8 @@ impl Group for C11Sim {
             c("world h|HVH 0 g 0|restart|HVH 0 g 1|restart|HRV 0|HVHO 0 g 2|restart|HVH -1 g 2"),
             // handler composites
             c("hvh 0 g 0|restart|rv 0|hvho 0 g 1|restart|hvh1o 0 g 2|ks 1000|restart|hvh1 0 g 0"),
+            // a stub pruned by the heartbeat after more than six blocks, then created again under the same id
+            c("newch 2|blkn 6|hb|newch 3|blk+ g|hb|restart|newch 2|restart|blkn 7|hb|newch 3|restart|forget 1"),
             // a full channel map
             c("newch 1|newch 2|newch 3|newch 4|restart|newch 4|forget 2|newch 4|restart|newch 5"),
             // closing through either entry point must be durable
@@ -160,7 +162,7 @@ impl Group for C11Sim {
                 }
             }
             let line = if node_model_line(op).is_some() {
-                format!("{} {}", out.class().split(':').next().unwrap(), node_digest(&sim))
+                format!("{} {}", out.class().split(':').next().unwrap(), node_digest_for(&sim, op))
             } else {
                 out.class()
             };
